@@ -5,15 +5,15 @@ import CssVerif.Lib.Proto
 
 What is transcribed, statement by statement:
 
-* `cssutils/profiles.py`  `Profiles.validate` (:368-392), `Profiles.validateWithProfile` (:394-450),
-  `defaultProfiles` (:184-196), `knownNames` (:179-182), `_compile_regexes` / `LazyRegex.__call__`
+* `cssutils/profiles.py`  `Profiles.validate` (:419-443), `Profiles.validateWithProfile` (:445-501),
+  `defaultProfiles` (:214-226), `knownNames` (:209-212), `_compile_regexes` (:196-207) / `LazyRegex.__call__`
   (`^(?:…)$`, `re.I`, `.match`) for a *fixed* registry (the history of a registry is C14's subject);
-* `cssutils/css/property.py`  `Property.validate` (:412-538) — the verdict, the log lines are dropped;
-  `_isValidating` (:91-97), the calls that depend on it (`_setName` :248, `_setCssText` :185);
-* `cssutils/css/cssstyledeclaration.py` `__nnames` (:214-223), `getProperty` (:433-456), `getProperties`
-  (:395-431), `_getValid` (:734-736), `_getValidating` (:710-719);
+* `cssutils/css/property.py`  `Property.validate` (:414-540) — the verdict, the log lines are dropped;
+  `_isValidating` (:91-97), the calls that depend on it (`_setName` :249, `_setCssText` :185);
+* `cssutils/css/cssstyledeclaration.py` `__nnames` (:214-223), `getProperty` (:432-454), `getProperties`
+  (:393-429), `_getValid` (:732-734), `_getValidating` (:708-717);
 * `cssutils/css/cssstylerule.py` `_getValid` (:272-274); `cssutils/css/cssfontfacerule.py` `_getValid` (:179-188);
-  `cssutils/css/cssstylesheet.py` `_getValid` (:891-897);
+  `cssutils/css/cssstylesheet.py` `_getValid` (:924-930);
 * `cssutils/serialize.py` `_valid` (:392-394) and the `validOnly` guard of `do_Property` (:980).
 
 A property enters the model as what `validate` reads of it: normalised name, `Property.value` (the comment-free
@@ -48,12 +48,12 @@ def insertSorted (x : Str) : List Str → List Str
   | [] => [x]
   | y :: ys => if strLt y x then y :: insertSorted x ys else x :: y :: ys
 
-/-- `names.sort()` (profiles.py:449); stable insertion sort -/
+/-- `names.sort()` (profiles.py:500); stable insertion sort -/
 def sortStrs (l : List Str) : List Str := l.foldr insertSorted []
 
 /-! ## acceptance by a compiled pattern -/
 
-/-- `bool(LazyRegex('^(?:…)$', re.I)(value))` = `pattern.match(value) is not None` (util.py:1015-1025):
+/-- `bool(LazyRegex('^(?:…)$', re.I)(value))` = `pattern.match(value) is not None` (util.py:1015-1027):
 the translated `Re` carries the `$` as `Re.eol` and the case-insensitivity in its classes. -/
 def accepts (r : Re) (s : Str) : Bool := !(r.ms s).isEmpty
 
@@ -104,7 +104,7 @@ structure Profile (π : Type) where
 structure Registry (π : Type) where
   /-- `_profileNames` order (= insertion order of `_profilesProperties`) -/
   profiles : List (Profile π)
-  /-- `_defaultProfiles`; `none`/empty are both falsy (profiles.py:186) -/
+  /-- `_defaultProfiles`; `none`/empty are both falsy (profiles.py:216) -/
   default : Option (List Str)
 
 inductive Err where
@@ -129,28 +129,28 @@ def Registry.get (reg : Registry π) (profile : Str) : Except Err (List (Str × 
   | some p => .ok p.props
   | none => .error (.keyError profile)
 
-/-- `knownNames` (profiles.py:179-182): all keys of all profiles, with repetitions -/
+/-- `knownNames` (profiles.py:209-212): all keys of all profiles, with repetitions -/
 def Registry.knownNames (reg : Registry π) : List Str :=
   reg.profiles.flatMap fun p => p.props.map (·.1)
 
-/-- `defaultProfiles` getter (profiles.py:184-189) -/
+/-- `defaultProfiles` getter (profiles.py:214-219) -/
 def Registry.defaultProfiles (reg : Registry π) : List Str :=
   match reg.default with
   | none => reg.names
   | some [] => reg.names
   | some l => l
 
-/-- `try: r = bool(check(value)) except Exception: r = False` (profiles.py:382-389, :428-432) -/
+/-- `try: r = bool(check(value)) except Exception: r = False` (profiles.py:433-440, :479-483) -/
 def tryAcc (acc : π → Str → Option Bool) (p : π) (v : Str) : Bool := (acc p v).getD false
 
-/-- `Profiles.validate(name, value)` (profiles.py:380-392) -/
+/-- `Profiles.validate(name, value)` (profiles.py:431-443) -/
 def validate (acc : π → Str → Option Bool) (reg : Registry π) (name value : Str) : Bool :=
   reg.profiles.any fun p =>
     match p.props.lookup name with
     | some pat => tryAcc acc pat value
     | none => false
 
-/-- first loop of `validateWithProfile` (profiles.py:424-432): `for profilename in reversed(profiles)`;
+/-- the two loops of `validateWithProfile` (profiles.py:475-483, :485-493): `for profilename in reversed(profiles)`;
 `some p` = returned `True, True, [p]`. Partial: an unregistered profile name is a `KeyError`. -/
 def firstAccepting (acc : π → Str → Option Bool) (reg : Registry π) (name value : Str) :
     List Str → Except Err (Option Str)
@@ -163,25 +163,25 @@ def firstAccepting (acc : π → Str → Option Bool) (reg : Registry π) (name 
       | some pat => if tryAcc acc pat value then .ok (some pn) else firstAccepting acc reg name value rest
       | none => firstAccepting acc reg name value rest
 
-/-- `validateWithProfile(name, value, profiles)` (profiles.py:417-450) → `(valid, matching, profiles)`.
-`profiles = none` is `None`; a single `str` is passed as a one-element list (profiles.py:422-423). -/
+/-- `validateWithProfile(name, value, profiles)` (profiles.py:468-501) → `(valid, matching, profiles)`.
+`profiles = none` is `None`; a single `str` is passed as a one-element list (profiles.py:473-474). -/
 def validateWithProfile (acc : π → Str → Option Bool) (reg : Registry π) (name value : Str)
     (profiles : Option (List Str)) : Except Err (Bool × Bool × List Str) :=
-  if !reg.knownNames.contains name then .ok (false, false, [])          -- :417-418
+  if !reg.knownNames.contains name then .ok (false, false, [])          -- :468-469
   else
-    let profs : List Str := match profiles with                        -- :420-423 (`if not profiles`)
+    let profs : List Str := match profiles with                        -- :471-474 (`if not profiles`)
       | none => reg.defaultProfiles
       | some [] => reg.defaultProfiles
       | some l => l
-    match firstAccepting acc reg name value profs.reverse with          -- :424-432
+    match firstAccepting acc reg name value profs.reverse with          -- :475-483
     | .error e => .error e
     | .ok (some pn) => .ok (true, true, [pn])
     | .ok none =>
-      let rest := reg.names.filter fun p => !profs.contains p           -- :434
-      match firstAccepting acc reg name value rest with                 -- :434-442
+      let rest := reg.names.filter fun p => !profs.contains p           -- :485
+      match firstAccepting acc reg name value rest with                 -- :485-493
       | .error e => .error e
       | .ok (some pn) => .ok (true, false, [pn])
-      | .ok none =>                                                     -- :444-450
+      | .ok none =>                                                     -- :495-501
         .ok (false, false, sortStrs ((reg.profiles.filter fun p => (p.props.map (·.1)).contains name).map (·.name)))
 
 /-! ## `Property.validate` -/
@@ -198,25 +198,25 @@ deriving Repr, DecidableEq, Inhabited
 
 def important : Str := Proto.cps "important"
 
-/-- `Property.validate()` (property.py:474-538). `fontFace` = the parent declaration's `parentRule` is a
-`@font-face` rule (:477-485); `ff` = `Profiles.CSS3_FONT_FACE`. -/
+/-- `Property.validate()` (property.py:476-540). `fontFace` = the parent declaration's `parentRule` is a
+`@font-face` rule (:479-487); `ff` = `Profiles.CSS3_FONT_FACE`. -/
 def propValid (acc : π → Str → Option Bool) (reg : Registry π) (ff : Str) (fontFace : Bool) (p : Prop') :
     Except Err Bool :=
   let profiles : Option (List Str) := if fontFace then some [ff] else none
   let v : Except Err Bool :=
-    if !p.name.isEmpty && !p.value.isEmpty then                          -- :488
-      if reg.knownNames.contains p.name then                            -- :496
-        match validateWithProfile acc reg p.name p.value profiles with  -- :498
+    if !p.name.isEmpty && !p.value.isEmpty then                          -- :490
+      if reg.knownNames.contains p.name then                            -- :500
+        match validateWithProfile acc reg p.name p.value profiles with  -- :500
         | .error e => .error e
         | .ok (valid, matching, _) =>
-          if !valid then .ok false                                      -- :502
-          else if !matching then .ok false                              -- :511-525
+          if !valid then .ok false                                      -- :504
+          else if !matching then .ok false                              -- :513-527
           else .ok true
       else .ok false
     else .ok false
   match v with
   | .error e => .error e
-  | .ok valid => if p.priority != [] && p.priority != important then .ok false else .ok valid   -- :535-536
+  | .ok valid => if p.priority != [] && p.priority != important then .ok false else .ok valid   -- :537-538
 
 /-! ## declaration block, rules, sheet -/
 
@@ -229,7 +229,7 @@ deriving Repr, DecidableEq, Inhabited
 
 abbrev Block := List Item
 
-/-- the `Property` entries, in order (`getProperties(all=True)`, cssstyledeclaration.py:425-431) -/
+/-- the `Property` entries, in order (`getProperties(all=True)`, cssstyledeclaration.py:423-429) -/
 def allProps : Block → List Prop'
   | [] => []
   | .prop p :: r => p :: allProps r
@@ -243,7 +243,7 @@ def nnamesRev : List Prop' → List Str → List Str
 
 def nnames (b : Block) : List Str := (nnamesRev (allProps b).reverse []).reverse
 
-/-- `getProperty(name)` (cssstyledeclaration.py:445-456) over the reversed entries: the last `!important`
+/-- `getProperty(name)` (cssstyledeclaration.py:443-454) over the reversed entries: the last `!important`
 (truthy priority) entry of that name, else the last entry -/
 def getPropertyRev (name : Str) : List Prop' → Option Prop' → Option Prop'
   | [], found => found
@@ -255,7 +255,7 @@ def getPropertyRev (name : Str) : List Prop' → Option Prop' → Option Prop'
 
 def getProperty (b : Block) (name : Str) : Option Prop' := getPropertyRev name (allProps b).reverse none
 
-/-- `getProperties()` (all=False, no name): the effective property of every name (:421-423) -/
+/-- `getProperties()` (all=False, no name): the effective property of every name (:419-421) -/
 def effective (b : Block) : List (Option Prop') := (nnames b).map (getProperty b)
 
 /-- `all(...)` with short-circuit: stops at the first `False`, an exception propagates -/
@@ -266,7 +266,7 @@ def allM (f : α → Except Err Bool) : List α → Except Err Bool
     | .ok false => .ok false
     | .ok true => allM f r
 
-/-- `CSSStyleDeclaration.valid` (cssstyledeclaration.py:734-736). `None.valid` would be an `AttributeError`;
+/-- `CSSStyleDeclaration.valid` (cssstyledeclaration.py:732-734). `None.valid` would be an `AttributeError`;
 `effective_some` (Lemmas) shows that the case does not occur. -/
 def declValid (acc : π → Str → Option Bool) (reg : Registry π) (ff : Str) (fontFace : Bool) (b : Block) :
     Except Err Bool :=
@@ -307,7 +307,7 @@ inductive Rule where
   | other
 deriving Repr, Inhabited
 
-/-- `rule.valid` where the attribute exists (`hasattr(rule, 'valid')`, cssstylesheet.py:895):
+/-- `rule.valid` where the attribute exists (`hasattr(rule, 'valid')`, cssstylesheet.py:928):
 `CSSStyleRule.valid` = `self.style.valid`; `CSSFontFaceRule.valid` -/
 def ruleValid (acc : π → Str → Option Bool) (reg : Registry π) (ff : Str) : Rule → Option (Except Err Bool)
   | .style b => some (declValid acc reg ff false b)
@@ -316,7 +316,7 @@ def ruleValid (acc : π → Str → Option Bool) (reg : Registry π) (ff : Str) 
   | .page _ _ => none
   | .other => none
 
-/-- `CSSStyleSheet.valid` (cssstylesheet.py:891-897) -/
+/-- `CSSStyleSheet.valid` (cssstylesheet.py:924-930) -/
 def sheetValid (acc : π → Str → Option Bool) (reg : Registry π) (ff : Str) (rules : List Rule) : Except Err Bool :=
   allM (fun r => match ruleValid acc reg ff r with
     | some v => v
@@ -350,7 +350,7 @@ end
 
 /-! ## the validating flag and what it can reach -/
 
-/-- `CSSStyleDeclaration._getValidating` (cssstyledeclaration.py:710-719): the parent sheet's flag when the
+/-- `CSSStyleDeclaration._getValidating` (cssstyledeclaration.py:708-717): the parent sheet's flag when the
 block is attached to a rule of a sheet (`AttributeError` otherwise), else the block's own flag unless `None`,
 else `True` -/
 def declValidating (sheetFlag : Option Bool) (declFlag : Option Bool) : Bool :=
@@ -371,7 +371,7 @@ inductive Log where
   | unknownName | invalidValue | notInProfile | foundValid
 deriving Repr, DecidableEq
 
-/-- the log line `Property.validate` emits beside the verdict (property.py:502-533) -/
+/-- the log line `Property.validate` emits beside the verdict (property.py:504-535) -/
 def validateLog (acc : π → Str → Option Bool) (reg : Registry π) (ff : Str) (fontFace : Bool) (p : Prop') : List Log :=
   if !p.name.isEmpty && !p.value.isEmpty && reg.knownNames.contains p.name then
     match validateWithProfile acc reg p.name p.value (if fontFace then some [ff] else none) with
@@ -388,7 +388,7 @@ structure Stored where
 deriving Repr, DecidableEq
 
 /-- `Property.__init__` / `_setCssText` / `_setName` as far as validation is concerned: the stored state is
-built from the parsed pieces; when validating, `_setName` warns about an unknown name (property.py:248-252) and
+built from the parsed pieces; when validating, `_setName` warns about an unknown name (property.py:249-253) and
 `_setCssText` calls `validate()` for its log lines (:185-186). Returns (state, log). -/
 def storeProperty (acc : π → Str → Option Bool) (reg : Registry π) (ff : Str) (fontFace : Bool) (validating : Bool)
     (parsed : Stored) : Stored × List Log :=
